@@ -41,7 +41,8 @@ func (s *server) Select(selectorContext *Context) (string, error) {
 		}
 	}
 	if serverId == "" {
-		panic("unexpected behaviour")
+		// No selector could pick a server (e.g. there are no candidates left)
+		return "", selectors.ErrNoFunctioning
 	}
 	return serverId, nil
 }
